@@ -1186,12 +1186,48 @@ class AvdtpBed(Bed):
         self.world.settle()
         assert self.servers, 'AVDTP listener did not create a Protocol'
 
+    def resync(self, chan, data):
+        # independent decode: could what was sent have configured the (only) end point, SEID 1?  Only a Set Configuration
+        # command naming it can (single packet, or a fragmented one: continue / end packets may complete an earlier start)
+        frames = data if isinstance(data, (tuple, list)) else (data,)
+
+        def may_configure(f):
+            if len(f) < 2:
+                return False
+            ptype, mtype = (f[0] >> 2) & 3, f[0] & 3
+            if ptype >= 2:
+                return True
+            at = 1 if ptype == 0 else 2
+            return mtype == 0 and len(f) > at + 1 and (f[at] & 0x3F) == 3 and (f[at + 1] >> 2) == 1
+
+        if chan == 'dyn' and any(may_configure(f) for f in frames):
+            self.may_be_configured = True
+        return True
+
     def probe(self):
         lab = self.next_tid() & 0x0F
         self.send('dyn', bytes([(lab << 4) | 0x00, 0x01]))
-        # Discover response (accept): one SEP, SEID 1, in-use either way, audio / SNK
+        # Discover response (accept): one SEP, SEID 1, audio / SNK; in use only if something configured it
         exp = tuple(bytes([(lab << 4) | 0x02, 0x01, (1 << 2) | (u << 1), 0x08]) for u in (0, 1))
-        return expect_in(self.psettle(), self.dyn_rx_cid, exp)
+        replies = self.psettle()
+        r = expect_in(replies, self.dyn_rx_cid, exp)
+        if r is not None:
+            return r
+        # second reference request: configuring the idle end point (Set Configuration, SEID 1) is accepted.  If what was
+        # sent may itself have configured it, the attacker first releases it, as a peer would (Abort is always accepted)
+        def abort():
+            lab = self.next_tid() & 0x0F
+            self.send('dyn', bytes([(lab << 4) | 0x00, 0x0A, 0x04]))
+            self.psettle()
+
+        if getattr(self, 'may_be_configured', False):
+            abort()
+            self.may_be_configured = False
+        lab = self.next_tid() & 0x0F
+        self.send('dyn', bytes([(lab << 4) | 0x00, 0x03, 0x04, 0x08]) + W.h('01 00 07 06 00 00 21 15 02 35'))
+        r = expect_in(self.psettle(), self.dyn_rx_cid, bytes([(lab << 4) | 0x02, 0x03]))
+        abort()
+        return None if r is None else 'idle_end_point_not_configurable:' + r
 
 
 class AvctpBed(Bed):
